@@ -9,6 +9,8 @@ import PdtVerif.Lemmas.SeqScoreEnum
 import PdtVerif.Lemmas.SeqScoreSample
 import PdtVerif.Lemmas.SeqScoreCheck
 import PdtVerif.Lemmas.SeqScoreCheckMem
+import PdtVerif.Lemmas.SeqScoreCheckNone
+import PdtVerif.Lemmas.SeqScoreCache
 /-!
 # C07 — sequence scores, random walks and greedy CTC decoding match their definitions
 
@@ -277,6 +279,20 @@ label"); which one among equal maxima is not specified. -/
 theorem C07_greedy_best (row : List Rat) (hne : row ≠ []) :
     row[(frameMax row).2]? = some (frameMax row).1 ∧ ∀ x ∈ row, x ≤ (frameMax row).1 :=
   frameMax_spec row hne
+
+/-- **C07_greedy_filler**: lowering entries of a frame while one maximal entry keeps its value
+(e.g. replacing the `-inf` of masked classes by any finite value below the rest) does not change
+the frame maximum, and with a strict maximum not its index either — so the finite filler the
+harness hands the model for `-inf` classes cannot change the model's answer. -/
+theorem C07_greedy_filler (row row' : List Rat) (hne : row ≠ []) (hlen : row'.length = row.length)
+    (hle : ∀ (i : Nat) x x', row[i]? = some x → row'[i]? = some x' → x' ≤ x)
+    (hkeep : row'[(frameMax row).2]? = some (frameMax row).1) :
+    (frameMax row').1 = (frameMax row).1 ∧
+      ((∀ (i : Nat) x, row[i]? = some x → i ≠ (frameMax row).2 → x < (frameMax row).1) →
+        frameMax row' = frameMax row) :=
+  frameMax_lower row row' hne hlen hle hkeep
+
+example : frameMax [-5, -1, -3] = frameMax [-1/2 - 4, -1, -2] := by decide +kernel
 
 /-- Valid length of batch element `n` with `T` frames. -/
 def lenOf (lens : Option (List Nat)) (n T : Nat) : Nat :=
@@ -606,5 +622,104 @@ theorem C07_validate_pinned_partial (V : Nat) (eos : Option Int) (m : Nat) (valu
     (h : value.length = m ∨ value.length = 1) :
     validateSample true V eos (some m) value = supportCheck V eos (some m) value := by
   rcases h with h | h <;> simp [validateSample, eventDimOk, h]
+
+/-! ## `TokenSequenceConstraint.check` without a step limit -/
+
+/-- **C07_support_check_no_limit**: with `max_iters = None` (stored as `inf`) the constraint
+accepts a value exactly when `eos` is set and occurs in it and every token up to and including
+the first `eos` is in the vocabulary (in particular nothing is accepted when `eos` is unset). -/
+theorem C07_support_check_no_limit (V : Nat) (eos : Option Int) (value : List Int) :
+    supportCheck V eos none value = true ↔
+      (∃ e, eos = some e ∧ e ∈ value) ∧ ∀ x ∈ Spec.cutAtEos eos value, 0 ≤ x ∧ x < (V : Int) :=
+  supportCheck_none_iff V eos value
+
+/-- **C07_support_check_no_limit_mem**: on a row of natural-number tokens, accepted without a
+step limit ⇔ the row holds `eos` and, with everything after its first `eos` replaced by `eos`,
+is a row of the support for the row's own length. -/
+theorem C07_support_check_no_limit_mem (V : Nat) (eos : Option Nat) (r : List Nat) :
+    supportCheck V (eos.map Int.ofNat) none (r.map Int.ofNat) = true ↔
+      (∃ e, eos = some e ∧ e ∈ r) ∧ fillOpt eos r ∈ Spec.support V eos r.length :=
+  check_none_iff_mem V eos r
+
+example : supportCheck 2 (some 0) none [1, 1, 0, 7] = true := by decide
+example : supportCheck 2 (some 0) none [1, 1, 1] = false := by decide
+example : supportCheck 2 none none [1, 1] = false := by decide
+
+/-! ## the cache and `validate_args` plumbing of `log_prob` -/
+
+/-- **C07_log_prob_cache** (the cache is transparent): for every configuration
+(`cache_samples`, `validate_args`, any validation / scoring functions) and every sequence of
+`sample` / `log_prob` / `clear_cache` calls on a fresh distribution in which each `sample` caches
+the scores `log_prob` computes for what it drew, every `log_prob` returns exactly what a
+distribution that never caches returns (`refLogProb`); in particular the
+`assert self._log_probs_cache is not None` never fires. -/
+theorem C07_log_prob_cache {Value Scores : Type} [DecidableEq Value] (cfg : DistCfg Value Scores)
+    (ops : List (DistOp Value Scores)) (hs : SamplesScored cfg ops) :
+    runDist cfg DistCache.empty ops = (logProbArgs ops).map (refLogProb cfg) :=
+  runDist_eq_ref cfg ops DistCache.empty (cacheOk_empty cfg) hs
+
+/-- **C07_log_prob_validation**: `log_prob` fails only with the `ValueError` of
+`_validate_sample`, and only when validation is on — `validate_args` `True` or `None` (the class
+default `__debug__`) — and the value is rejected; with `validate_args=False` nothing is
+rejected. -/
+theorem C07_log_prob_validation {Value Scores : Type} (cfg : DistCfg Value Scores) (v : Value)
+    (e : DistErr) :
+    refLogProb cfg v = .error e ↔
+      e = .valueError ∧ cfg.validateArgs ≠ some false ∧ cfg.valid v = false :=
+  refLogProb_error_iff cfg v e
+
+/-- **C07_sample_flat_scored**: the hypothesis of `C07_log_prob_cache` holds for `sample()`
+without a batch shape: the scores it caches (the walk's reported log-probabilities) are the
+scores `log_prob` computes for the sampled rows. Same draw hypotheses as `C07_walk`. -/
+theorem C07_sample_flat_scored (lm : LM) (V : Nat) (eos : Option Nat) (M T : Nat)
+    (draws : List (List Nat)) (heos : ∀ e, eos = some e → e < V)
+    (hrows : Rows M V (draws.take T)) (hf : Forced eos M (draws.take T)) :
+    sampleFlatLp lm V eos M T draws = scoreRows lm V eos none (sampleFlat lm V eos M T draws) := by
+  unfold scoreRows
+  apply List.ext_getElem?
+  intro n
+  obtain ⟨t, ht, hinv, hend⟩ := C07_walk_state lm V eos M T draws heos hrows hf
+  by_cases hn : n < M
+  · have hw := C07_walk lm V eos M T draws heos hrows hf n hn
+    simp only at hw
+    obtain ⟨_, _, _, hlp, hd⟩ := hw
+    simp only [sampleFlatLp, sampleFlat]
+    rw [hlp]
+    simp [List.getElem?_zipIdx, List.getElem?_range hn, hd, elemOf]
+  · have hlen : (walk lm V eos M T draws).lp.length = M := by rw [hinv.lp]; simp
+    have h1 : (sampleFlatLp lm V eos M T draws)[n]? = none := by
+      apply List.getElem?_eq_none
+      simp only [sampleFlatLp, hlen]; omega
+    rw [h1]
+    symm
+    apply List.getElem?_eq_none
+    simp [sampleFlat]; omega
+
+/-- **C07_log_prob_cache_flat**: the model's distribution without a batch shape: after a
+`sample()` (any `cache_samples`, `validate_args`), every later `log_prob` / `clear_cache`
+sequence answers as the cache-free reference: rejected values raise, every other value gets
+`scoreRows`, i.e. `distLogProb` of each of its rows. -/
+theorem C07_log_prob_cache_flat (lm : LM) (V : Nat) (eos : Option Nat) (maxIters : Option Nat)
+    (cache : Bool) (va : Option Bool) (M T : Nat) (draws : List (List Nat))
+    (heos : ∀ e, eos = some e → e < V)
+    (hrows : Rows M V (draws.take T)) (hf : Forced eos M (draws.take T))
+    (ops : List (DistOp (List (List Nat)) (List (Option Rat))))
+    (hs : SamplesScored (distCfg lm V eos maxIters none cache va) ops) :
+    runDist (distCfg lm V eos maxIters none cache va) DistCache.empty
+        (.sample (M == 0) (sampleFlat lm V eos M T draws) (sampleFlatLp lm V eos M T draws) :: ops) =
+      (logProbArgs ops).map (refLogProb (distCfg lm V eos maxIters none cache va)) := by
+  have := C07_log_prob_cache (distCfg lm V eos maxIters none cache va)
+    (.sample (M == 0) (sampleFlat lm V eos M T draws) (sampleFlatLp lm V eos M T draws) :: ops)
+    ⟨fun _ => C07_sample_flat_scored lm V eos M T draws heos hrows hf, hs⟩
+  simpa [logProbArgs] using this
+
+example :
+    (runDist (distCfg (fun _ _ v => -(v : Rat)) 2 (some 0) (some 2) none true none) DistCache.empty
+      [.sample false [[1, 0]] [some (-1)], .logProb [[1, 0]], .logProb [[1, 1]], .logProb [[1, 0]],
+       .logProb [[1]], .clearCache, .logProb [[1, 0]]]).map
+      (fun r => match r with | .ok l => (none, l) | .error e => (some e, []))
+    = [(none, [some (-1)]), (none, [some (-2)]), (none, [some (-1)]),
+       (some DistErr.valueError, []), (none, [some (-1)])] := by
+  decide +kernel
 
 end PdtVerif.SeqScore
